@@ -164,7 +164,7 @@ fn intersection_impl(a1: Coord<R>, a2: Coord<R>, b1: Coord<R>, b2: Coord<R>) -> 
         //@ proof {
         //@     assert(s.v@ * k == vx(e) * vy(vb) - vy(e) * vx(vb)) by(nonlinear_arith) requires s.v@ == (vx(e) * vy(vb) - vy(e) * vx(vb)) / k, k != 0real;
         //@     assert(tt * k == vx(e) * vy(va) - vy(e) * vx(va)) by(nonlinear_arith) requires tt == (vx(e) * vy(va) - vy(e) * vx(va)) / k, k != 0real;
-        //@     lemma_nonparallel(a1, a2, b1, b2, s.v@, tt);
+        //@     lemma_nonparallel(a1, a2, b1, b2, s.v@, tt); // contract-step: s, t are the parameters of the lines' meeting point
         //@ }
         if s < R::zero() || s > R::one() {
             return LineIntersection::None;
@@ -192,7 +192,7 @@ fn intersection_impl(a1: Coord<R>, a2: Coord<R>, b1: Coord<R>, b2: Coord<R>) -> 
     //@ proof { assert(sqr_kross.v@ > 0real <==> k2 != 0real) by(nonlinear_arith) requires sqr_kross.v@ == k2 * k2; }
 
     if sqr_kross > R::zero() {
-        //@ proof { lemma_parallel_disjoint(a1, a2, b1, b2); }
+        //@ proof { lemma_parallel_disjoint(a1, a2, b1, b2); } // contract-step
         return LineIntersection::None;
     }
 
@@ -209,7 +209,7 @@ fn intersection_impl(a1: Coord<R>, a2: Coord<R>, b1: Coord<R>, b2: Coord<R>) -> 
     //@     assert(sav * l == vx(va) * vx(e) + vy(va) * vy(e)) by(nonlinear_arith) requires sav == (vx(va) * vx(e) + vy(va) * vy(e)) / l, l != 0real;
     //@     assert(dv * l == vx(va) * vx(vb) + vy(va) * vy(vb)) by(nonlinear_arith) requires dv == (vx(va) * vx(vb) + vy(va) * vy(vb)) / l, l != 0real;
     //@     assert(sbv - sav == dv);
-    //@     lemma_collinear(a1, a2, b1, b2, sav, sbv);
+    //@     lemma_collinear(a1, a2, b1, b2, sav, sbv); // contract-step: sa, sb are the parameters of b1, b2 on the first segment
     //@     lemma_collinear_range(a1, a2, b1, b2, sav, sbv);
     //@ }
     let smin = sa.min(sb);
@@ -243,7 +243,7 @@ fn intersection_impl(a1: Coord<R>, a2: Coord<R>, b1: Coord<R>, b2: Coord<R>) -> 
                 let u2 = rmin(smax.v@, 1real);
                 assert(0real <= u1 < u2 <= 1real);
                 if let LineIntersection::Overlap(p, q) = ov {
-                    assert(is_at(p, a1, a2, u1) && is_at(q, a1, a2, u2));
+                    assert(is_at(p, a1, a2, u1) && is_at(q, a1, a2, u2)); // contract-step: the overlap's ends
                     assert forall|s: real| u1 <= s <= u2 implies #[trigger] on_both(a1, a2, b1, b2, s) by {}
                     assert forall|s: real, t: real| #[trigger] meet(a1, a2, b1, b2, s, t) implies u1 <= s <= u2 by {}
                 }
